@@ -1,5 +1,5 @@
 /-
-  C13 — one call: the model's result is the reference's (`run c = realise (shape c)`), on every call.
+  C13 — one call: the model's result is the reference's (`runPlain c = realise (shape c)`), on every call.
 -/
 import AttrsModel.Proofs.C13RefineT
 import AttrsModel.Proofs.C13Eqv
@@ -36,7 +36,7 @@ theorem realiseL_flatT (flt : Filter) : ∀ fs : List (FI × PVal), realiseL (fl
     · simp [flatT, hp, ih]
 
 /-- **the refinement**: the code's result is the promised shape, built -/
-theorem run_refines (c : Case) (s : Out) (hs : shape c = some s) : run c = realise s := by
+theorem run_refines (c : Case) (s : Out) (hs : shape c = some s) : runPlain c = realise s := by
   unfold shape at hs
   cases hv : c.value with
   | atom a => simp [hv] at hs
@@ -46,14 +46,32 @@ theorem run_refines (c : Case) (s : Out) (hs : shape c = some s) : run c = reali
     simp only [hv] at hs
     cases hapi : c.api <;> cases hrec : c.recurse <;> simp only [hapi, hrec, Option.some.injEq] at hs <;> subst hs
     · -- asdict, recurse=False
-      simp [run, hapi, hv, asdictTop, hrec, realise, shapeDFlat_eq_flatD, realiseR_flatD]
+      simp [runPlain, hapi, hv, asdictTop, hrec, realise, shapeDFlat_eq_flatD, realiseR_flatD]
     · -- asdict, recurse=True
-      simp [run, hapi, hv, asdictTop, hrec, realise, fieldsD_refines c.opts cls fs]
+      simp [runPlain, hapi, hv, asdictTop, hrec, realise, fieldsD_refines c.opts cls fs]
     · -- astuple, recurse=False
-      simp [run, hapi, hv, astupleTop, hrec, realise_tfOut, realiseL_flatT]
+      simp [runPlain, hapi, hv, astupleTop, hrec, realise_tfOut, realiseL_flatT]
     · -- astuple, recurse=True
       have := tupleOf_refines c.opts fs c.opts.filter
       rw [withFilter_self] at this
-      simp [run, hapi, hv, astupleTop, hrec, realise_tfOut, this]
+      simp [runPlain, hapi, hv, astupleTop, hrec, realise_tfOut, this]
+
+/-! ### call counts, recurse=False -/
+
+theorem cFlat_filter (o : Opts) (hf : o.filter ≠ .none) : ∀ fs : List (FI × PVal),
+    cFlat o .filter fs = fs.length
+  | [] => rfl
+  | (f, v) :: r => by
+    have ih := cFlat_filter o hf r
+    have h1 : (o.filter != Filter.none) = true := by simpa using hf
+    by_cases hp : passes o.filter f v = true <;> simp [cFlat, one, h1, hp, ih] <;> omega
+
+theorem cFlat_ser (o : Opts) (hs : o.ser ≠ .off) : ∀ fs : List (FI × PVal),
+    cFlat o .ser fs = (fs.filter (fun p => passes o.filter p.1 p.2)).length
+  | [] => rfl
+  | (f, v) :: r => by
+    have ih := cFlat_ser o hs r
+    have h1 : (o.ser != SerMode.off) = true := by simpa using hs
+    by_cases hp : passes o.filter f v = true <;> simp [cFlat, one, h1, hp, ih] <;> omega
 
 end Attrs.C13
